@@ -55,7 +55,14 @@ type c16Gen struct {
 
 func (g *c16Gen) nextTag() int64 { g.tag += 1 + int64(g.r.Intn(3)); return g.tag }
 
-func (g *c16Gen) v() *Node  { return Var(fmt.Sprintf("x%d", g.r.Intn(8)), TInt) }
+// v: an integer variable; one in six is registered under a name that is also an operator of the same expression
+// (names are looked up by position: a name in operator position is the operator, anywhere else the variable)
+func (g *c16Gen) v() *Node {
+	if g.r.Intn(6) == 0 {
+		return Var([]string{"add", "ci", "cpos", "in", "ge", "not"}[g.r.Intn(6)], TInt)
+	}
+	return Var(fmt.Sprintf("x%d", g.r.Intn(8)), TInt)
+}
 func (g *c16Gen) bv() *Node { return Var(fmt.Sprintf("p%d", g.r.Intn(4)), TBool) }
 
 // operand: a boolean expression carrying a unique tag
@@ -421,13 +428,24 @@ func c16Stability(w *W, r *rand.Rand, g *c16Gen) {
 	nClasses := 1 + r.Intn(3)
 	isOr := r.Intn(2) == 0
 	// class c: a fixed shape; operands of one class differ only in tag and in (equally priced) variable
+	// equally priced variables; two of the eight carry names that are also operators of the same expression
+	// (a name is the operator in operator position and the variable everywhere else)
+	varName := func(vi int) string {
+		switch vi {
+		case 6:
+			return "add"
+		case 7:
+			return "not"
+		}
+		return fmt.Sprintf("x%d", vi)
+	}
 	shape := func(c int, t int64, vi int) *Node {
-		v := Var(fmt.Sprintf("x%d", vi), TInt)
+		v := Var(varName(vi), TInt)
 		switch c {
 		case 0:
 			return Op(">", TBool, v, Lit(t))
 		case 1:
-			return Op(">", TBool, Op("+", TInt, v, Lit(int64(1))), Lit(t))
+			return Op(">", TBool, Op("add", TInt, v, Lit(int64(1))), Lit(t))
 		default:
 			return Op("not", TBool, Op("=", TBool, Op("*", TInt, v, v.Clone()), Lit(t)))
 		}
@@ -460,7 +478,7 @@ func c16Stability(w *W, r *rand.Rand, g *c16Gen) {
 	if r.Intn(2) == 0 {
 		costs["variable"] = []float64{0, 3, 100, -2}[r.Intn(4)]
 	}
-	for _, o := range []string{">", "+", "*", "=", "not"} {
+	for _, o := range []string{">", "*", "="} { // no entries for add/not: those names are also variables here
 		if r.Intn(3) == 0 {
 			costs[o] = []float64{0, 1, 30, 500, -4}[r.Intn(5)]
 		}
@@ -500,9 +518,9 @@ func c16Stability(w *W, r *rand.Rand, g *c16Gen) {
 	vals := map[string]interface{}{}
 	for i := 0; i < 8; i++ {
 		if isOr {
-			vals[fmt.Sprintf("x%d", i)] = int64(-5) // all comparisons false / not(=) ... keep evaluating
+			vals[varName(i)] = int64(-5) // all comparisons false / not(=) ... keep evaluating
 		} else {
-			vals[fmt.Sprintf("x%d", i)] = int64(1 << 40)
+			vals[varName(i)] = int64(1 << 40)
 		}
 	}
 	rec := &Recorder{}
